@@ -25,6 +25,14 @@ REGISTRY['C05'] = {
     'design_ref': 'DESIGN.md section 5 / C05',
     'not_covered': ['AspaDefinitions::process_updates (iterator chains; outside V, K gave no verdict)', 'repository untouched on refusal (follows from no event, A8)'],
 }
+REGISTRY['C10'] = {
+    'v': ['c10_current', 'c10_staged', 'c10_content'],
+    'k': [],
+    'level_text': 'Publication-server data-structure contracts on the real text: delta accepted exactly when every URI is in the jail, publishes are new and updates/withdraws match the stated hash (iff, any delta length); applying a delta equals the map-level spec (whole-map equality, so untouched objects are proved untouched); staged-on-staged merge follows the 12-case per-URI table; list content = current + staged. Cross-publisher isolation through HTTP and interleaving with RRDP writes are not decided.',
+    'level_note': 'uri::Rsync / Base64 / Hash opaque (is_parent_of, to_hash uninterpreted); HashMap key model; HashMap::get_mut assumed spec; RepositoryManager/HTTP layers unverified (A8).',
+    'design_ref': 'DESIGN.md section 5 / C10',
+    'not_covered': ['interleaving with RRDP file writes, session reset histories', 'publisher_rsync_base string construction'],
+}
 REGISTRY['C16'] = {
     'v': [],
     'k': ['k_api_roa'],
